@@ -6,6 +6,7 @@ CONSTANTS
   MaxUrl = 2
   ReuseOnLookup = TRUE
   FabricatedNorm = FALSE
+  EmptyParam = TRUE
   WildHostCheck = TRUE
   KF_Shadow = TRUE
   Source = "all"
